@@ -45,6 +45,7 @@ REQUIRED = ['check:' + r for r in ROUTINES] + ['check:seed_replay', 'stored_eval
 REACH = ROUTINES + ['_internal_cv', '_concat_sampling', 'input_check_model', 'Result.__init__', 'bootstrap_sample',
                     'sets_k_fold', 'sets_random']
 FAIL_KEYS = ['routine', 'what', 'boot_type', 'grouped']
+INCONCLUSIVE_IF = ['untraceable_history']
 TIME_BUDGET = {'quick': 100, 'thorough': 900}
 SHARDS = {'quick': 1, 'thorough': 16}
 
@@ -72,7 +73,7 @@ class Traced:
 
 
 # ---------------------------------------------------------------------------
-def make_world(rng):
+def make_world(rng, ties_ok=True):
     n_rdm = int(rng.integers(3, 8))
     n_cond = int(rng.integers(5, 9))
     rgk = gen.pick(rng, ['singleton', 'singleton', 'pairs', 'few'])
@@ -82,7 +83,7 @@ def make_world(rng):
     base = gen.rdm_vectors(rng, 1, n_cond, 'pos')[0]
     data = np.array([base * rng.uniform(0.5, 2) + rng.uniform(0.2, 1.0) * rng.standard_normal(base.shape)
                      for _ in range(n_rdm)])
-    if rng.integers(4) == 0:
+    if rng.integers(4) == 0 and ties_ok:
         data = np.round(data * 2) / 2   # ties
     rd = {'uid': [int(v) for v in 50 + rng.permutation(n_rdm)], 'grp': [int(v) + 3 for v in rg]}
     pd = {'puid': [int(v) for v in 100 + np.arange(n_cond)], 'pgrp': [int(v) * 2 + 1 for v in pg]}
@@ -154,6 +155,8 @@ def sample_ok(ctx, check, sig, w, obj, wit):
 def ref_mean_similarity(method, pred_vec, sample_vecs):
     keep = ~np.isnan(pred_vec)
     n_sub = int(round((1 + np.sqrt(1 + 8 * len(pred_vec))) / 2))
+    if keep.sum() < 2 or np.ptp(pred_vec[keep]) < 1e-12 or any(np.ptp(s[keep]) < 1e-12 for s in sample_vecs):
+        return None   # a constant RDM: the measures are undefined, nothing to decide
     vals = []
     for s in sample_vecs:
         if method in ('cosine_cov', 'corr_cov'):
@@ -187,6 +190,8 @@ def check_compare_event(ctx, check, sig, w, ev, model, theta, method, wit):
     tol = 1e-7 if method.endswith('_cov') else 1e-9
     m_ref = ref_mean_similarity(method, want_pred, dat.dissimilarities)
     m_lib = float(np.mean(ev['out']))
+    if m_ref is None:
+        return m_lib
     if not close(m_lib, m_ref, tol, tol):
         ctx.fail(check, dict(sig, what='similarity_value'), f'mean similarity {m_lib!r} != reference {m_ref!r}', wit())
         return None
@@ -205,11 +210,12 @@ def cov_rows(mat):
 # ---------------------------------------------------------------------------
 def run_bootstrap_like(ctx, routine, tap):
     rng = ctx.rng
-    w = make_world(rng)
+    method = gen.pick(rng, ['cosine', 'corr', 'spearman', 'rho-a', 'tau-a', 'cosine_cov'])
+    # correlation of a constant (tied, tiny) resample is undefined: tied data only for the other measures
+    w = make_world(rng, ties_ok=not method.startswith('corr'))
     specs = make_models(rng, w, False)
     models = [s[0] for s in specs]
     thetas = [s[1] for s in specs]
-    method = gen.pick(rng, ['cosine', 'corr', 'spearman', 'rho-a', 'tau-a', 'cosine_cov'])
     N = int(rng.integers(4, 13))
     grouped = bool(rng.integers(2))
     rdesc, pdesc = ('grp', 'pgrp') if grouped else ('uid', 'puid')
@@ -234,6 +240,7 @@ def run_bootstrap_like(ctx, routine, tap):
         with Traced() as tr:
             res = fn(models, data_obj(w), **kw)
         return res, tr, tap.take()
+    tr_orig = {n: getattr(E, n) for n in PATCH}
     try:
         res, tr, draws = go()
     except Exception as exc:
@@ -280,36 +287,42 @@ def run_bootstrap_like(ctx, routine, tap):
                 ctx.fail(routine, dict(sig, what='small_sample_not_nan'), f'resample {i} has fewer than 3 distinct '
                          f'condition groups but its evaluations are {ev[i].tolist()}', wit(i=i))
                 return
-            if ch['compare']:
-                ctx.fail(routine, dict(sig, what='small_sample_evaluated'), 'too small resample was evaluated', wit(i=i))
-                return
             continue
         ok_rows.append(i)
-        if len(ch['compare']) != M:
-            ctx.fail(routine, dict(sig, what='compare_calls'), f'resample {i}: {len(ch["compare"])} comparisons for '
-                     f'{M} models', wit(i=i))
+        if not sample_ok(ctx, routine, sig, w, sample, lambda **k: wit(i=i, **k)):
             return
-        for j, ce in enumerate(ch['compare']):
-            if ce['call']['args'][1] is not sample:
-                ctx.fail(routine, dict(sig, what='compared_with_other_sample'), f'resample {i}, model {j}: compare '
-                         f'was not given the resample drawn in this iteration', wit(i=i, j=j))
-                return
-            m = check_compare_event(ctx, routine, sig, w, ce, models[j], thetas[j], method, lambda **k: wit(i=i, j=j, **k))
-            if m is None:
-                return
+        # value-based oracle (decides): stored evaluation == mean similarity between the model's prediction
+        # restricted to exactly this resample's conditions and this resample's data RDMs
+        pos = positions(w, sample)
+        tol = 1e-7 if method.endswith('_cov') else 1e-9
+        for j in range(M):
+            pred = ref.subsample_vector(full_prediction(models[j], thetas[j]), w['n_cond'], pos)
+            want = ref_mean_similarity(method, pred, sample.dissimilarities)
+            if want is None:
+                ctx.count('degenerate_skipped')
+                continue
             ctx.count('stored_evaluations_rederived')
-            if ev[i, j] != m:
-                ctx.fail(routine, dict(sig, what='stored_value'), f'evaluations[{i},{j}] = {ev[i, j]!r} but the '
-                         f'comparison of that prediction with that resample gave {m!r}', wit(i=i, j=j))
+            if not close(ev[i, j], want, tol, tol):
+                detail = ''
+                if len(ch['compare']) == M:   # event-level diagnosis of what was compared with what
+                    ce = ch['compare'][j]
+                    if ce['call']['args'][1] is not sample:
+                        detail = ' (compare was given another object than the resample of this iteration)'
+                    else:
+                        gp = np.asarray(getattr(ce['call']['args'][0], 'dissimilarities', ce['call']['args'][0]))
+                        if gp.shape != (1, len(pred)) or not close(gp[0], pred, 1e-12, 1e-13):
+                            detail = ' (the prediction handed to compare is not the model restricted to the ' \
+                                     'resample\'s conditions)'
+                ctx.fail(routine, dict(sig, what='stored_value'), f'evaluations[{i},{j}] = {ev[i, j]!r}; the mean '
+                         f'similarity of model {models[j].name} restricted to the conditions of resample {i} with the '
+                         f'RDMs of that resample is {want!r}{detail}', wit(i=i, j=j))
                 return
         if bnc:
-            if len(ch['nc']) != 1 or ch['nc'][0]['call']['args'][0] is not sample:
-                ctx.fail(routine, dict(sig, what='ceiling_of_other_sample'), f'resample {i}: the noise ceiling was not '
-                         f'computed on this resample', wit(i=i))
-                return
-            if not np.array_equal(np.asarray(res.noise_ceiling)[:, i], np.asarray(ch['nc'][0]['out'], dtype=float)):
-                ctx.fail(routine, dict(sig, what='ceiling_value'), f'noise_ceiling[:, {i}] differs from the ceiling of '
-                         f'resample {i}', wit(i=i))
+            want_nc = np.asarray(tr_orig['boot_noise_ceiling'](sample, method=method, rdm_descriptor=rdesc), dtype=float)
+            if not close(np.asarray(res.noise_ceiling)[:, i], want_nc, 1e-12, 1e-13):
+                ctx.fail(routine, dict(sig, what='ceiling_value'), f'noise_ceiling[:, {i}] = '
+                         f'{np.asarray(res.noise_ceiling)[:, i].tolist()} is not the noise ceiling of resample {i} '
+                         f'{want_nc.tolist()}', wit(i=i))
                 return
     # covariance over exactly the usable resamples
     if len(ok_rows) >= 2:
@@ -375,6 +388,9 @@ def run_fixed(ctx):
         p = full_prediction(m, thetas[j])
         for r in range(n):
             want = ref_mean_similarity(method, p, [w['data'][r]])
+            if want is None:
+                ctx.count('degenerate_skipped')
+                continue
             ctx.count('stored_evaluations_rederived')
             if not close(res.evaluations[0, j, r], want, tol, tol):
                 ctx.fail('eval_fixed', dict(sig, what='stored_value'), f'evaluations[0,{j},{r}] = '
@@ -423,6 +439,9 @@ def refit_fold(ctx, check, sig, w, models, fitters, method, pdesc, train, test, 
             return False
         pred = ref.subsample_vector(full_prediction(m, theta), w['n_cond'], pos_obj)
         want = ref_mean_similarity(method, pred, test[0].dissimilarities)
+        if want is None:
+            ctx.count('degenerate_skipped')
+            continue
         ctx.count('stored_evaluations_rederived')
         if not close(evals_f[j], want, tol, tol):
             ctx.fail(check, dict(sig, what='stored_value'), f'fold score of model {m.name} is {evals_f[j]!r}; the '
@@ -441,7 +460,7 @@ def det_fitters(specs):
 
 def run_crossval(ctx, tap):
     rng = ctx.rng
-    w = make_world(rng)
+    w = make_world(rng, ties_ok=False)
     specs = make_models(rng, w, True)
     models = [s[0] for s in specs]
     fit_arg = [s[2] for s in specs]
@@ -497,7 +516,7 @@ def run_crossval(ctx, tap):
 
 def run_boot_cv(ctx, routine, tap):
     rng = ctx.rng
-    w = make_world(rng)
+    w = make_world(rng, ties_ok=False)
     specs = make_models(rng, w, True)
     models = [s[0] for s in specs]
     fit_arg = [s[2] for s in specs]
@@ -585,6 +604,10 @@ def run_boot_cv(ctx, routine, tap):
     ok_rows = []
     for i, ch in enumerate(chunks):
         flat = ev[i].reshape(M, -1)
+        if not ch['cv'] and not np.all(np.isnan(flat)):
+            ctx.count('untraceable_history')
+            ctx.notes.append(f'{routine}: evaluated resample {i} without any traced cross-validation run')
+            return
         if not ch['cv']:
             ctx.count('nan_samples_seen')
             if not np.all(np.isnan(flat)):
@@ -597,8 +620,11 @@ def run_boot_cv(ctx, routine, tap):
             continue
         ok_rows.append(i)
         if len(ch['cv']) != per_sample:
-            ctx.fail(routine, dict(sig, what='cv_runs'), f'resample {i}: {len(ch["cv"])} cross-validation runs, '
-                     f'expected {per_sample}', wit(i=i))
+            # the history does not have the shape this checker understands (e.g. after a refactoring):
+            # the run is inconclusive for this routine, never a violation
+            ctx.count('untraceable_history')
+            ctx.notes.append(f'{routine}: resample {i} has {len(ch["cv"])} traced cross-validation runs, expected '
+                             f'{per_sample}')
             return
         for c, ce in enumerate(ch['cv']):
             a = ce['call']['args']
@@ -664,6 +690,29 @@ def run_boot_cv(ctx, routine, tap):
             ctx.fail(routine, dict(sig, what='covariance'), f'covariance is not the documented '
                      f'{"n_cv-corrected " if use_corr and n_cv > 1 else ""}sample covariance over the {len(ok_rows)} '
                      f'usable resamples', wit())
+    if len(ok_rows) >= 2 and routine == 'eval_dual_bootstrap':
+        # three covariances (both / rdm / pattern bootstrap), each over exactly the usable resamples
+        nc_arr = np.asarray(res.noise_ceiling)               # 2 x N x n_cv x 3
+        e_ok = ev[ok_rows]                                    # ok x M x folds x n_cv x 3
+        got = np.asarray(res.variances)
+        want = []
+        for t in range(3):
+            ev_mean = e_ok[..., t].mean(axis=-1).mean(axis=-1)            # ok x M
+            nc_mean = nc_arr[:, ok_rows][..., t].mean(axis=-1)            # 2 x ok
+            var_mean = cov_rows(np.concatenate([ev_mean.T, nc_mean]))
+            if use_corr and n_cv > 1:
+                ev_1 = e_ok[..., t].mean(axis=-2)                         # ok x M x n_cv
+                v1 = np.mean([cov_rows(np.concatenate([ev_1[:, :, r].T, nc_arr[:, ok_rows][:, :, r, t]]))
+                              for r in range(n_cv)], axis=0)
+                want.append((n_cv * var_mean - v1) / (n_cv - 1))
+            else:
+                want.append(var_mean)
+        want = np.array(want)
+        if got.shape != want.shape or not close(got, want, 1e-8, 1e-14):
+            ctx.fail(routine, dict(sig, what='covariance'), f'the three covariances are not the documented '
+                     f'{"n_cv-corrected " if use_corr and n_cv > 1 else ""}sample covariances over the {len(ok_rows)} '
+                     f'usable resamples (of {N}): maxdiff '
+                     f'{maxdiff(got, want) if got.shape == want.shape else (got.shape, want.shape)}', wit())
     # dof
     units = {'both': min(n_rg, n_pg), 'pattern': n_pg, 'rdm': n_rg}[boot_type]
     if res.dof != units - 1:
@@ -684,7 +733,7 @@ def run_boot_cv(ctx, routine, tap):
 
 
 def run(ctx):
-    n = ctx.n(14, 40)
+    n = ctx.n(24, 60)
     with RngTap() as tap:
         for it in range(n):
             if ctx.out_of_time():
